@@ -979,3 +979,6 @@ SILENT = [
         (_T, "        self.publish(rpc.CONTROL_PUBSUB, {'cmd' : 'cancel_tasks',\n                                          'arg' : {'uids' : uids,\n                                                   'tmgr' : self.uid},\n                                          'fwd' : True})",
              "        req = {'cmd' : 'cancel_tasks',\n               'fwd' : True,\n               'arg' : {'uids' : uids, 'tmgr' : self.uid}}\n        self.publish(rpc.CONTROL_PUBSUB, req)")]),
 ]
+
+from .c14 import corpus_variants          # noqa: E402
+SILENT += corpus_variants('C16')
